@@ -274,8 +274,12 @@ def execute_race(ctx, case):
     f.write(render_schemas(old['schemas']))
   with open(ap, 'w') as f:
     f.write(render_aggs(old['aggs']))
-  w.reloadStorageSchemas()
-  w.reloadAggregationSchemas()
+  try:
+    w.reloadStorageSchemas()
+    w.reloadAggregationSchemas()
+  except BaseException as e:  # noqa (SystemExit included)
+    ctx.fail('C19:reload-raised:%s' % type(e).__name__, 'reloading the schema files raised %r\n%s' % (e, render_schemas(old['schemas'])), case)
+    return
   cache = b.cache.MetricCache()
   for i, name in enumerate(case['names']):
     cache.store(name, (1500000000 + i, float(i)))
